@@ -15,12 +15,21 @@
   classes the statement under the exact hypothesis that excludes the counterexample
   (`accept_implies_entitled_partial`: sender not in the receiver's own zone).
   `anonymous_only_certificate` holds in full.
+  `accept_implies_entitled_or_claimed` is the whole table WITHOUT hypothesis: accepted ⇒ entitled, or exactly the
+  shape of F-C13a (own-zone sender, update class, `originZone` absent or naming a zone that is itself entitled);
+  `own_zone_claim_not_entitled_is_refused` is its boundary from the other side.
+  THE WHOLE-TRACE THEOREM is `model_trace_satisfies_spec_partial`: for every forest and every sequence of
+  messages the specification predicate the driver evaluates finds nothing in the model's observations
+  (`observe`: nothing for a message that does not apply, the connection-bookkeeping methods confined to the
+  sender's Endpoint object), provided no message lies in the class F-C13a; `model_trace_counterexample` is the
+  kernel-checked trace for the excluded case.
 
   History: F-C13b (`pki::UpdateCertificate` had no endpoint test; /repo ba4edd4) and F-C13c
   (`event::SetRemovalInfo` did not look at the object's zone; /repo cc1e22f) were found by this check and
   are repaired; their `…_partial`/`…_counterexample` pairs have been replaced by the full theorems.
 -/
 import IcingaProofs.C13.Lemmas
+import IcingaProofs.C13.Trace
 import IcingaProofs.Gen.ApiFunctions
 
 namespace Icinga.C13
@@ -62,8 +71,8 @@ theorem accept_implies_entitled_config (f : Forest) (m : Method) (c : Ctx)
     cases m <;> simp [Method.cls] at hm
     · -- config::DeleteObject
       simp [accepts] at h
-      obtain ⟨ez, he, hb⟩ := guardConfigSender_sender f h.1.1
-      exact ⟨ez, he, hb, h.1.2⟩
+      obtain ⟨ez, he, hb⟩ := guardConfigSender_sender f h.1.1.1
+      exact ⟨ez, he, hb, h.1.1.2⟩
     · -- config::Update
       simp [accepts] at h
       obtain ⟨ez, he⟩ := endpoint_isSome h.1.1
@@ -332,7 +341,7 @@ example : accepts exForest .executeCommand { exFromMaster with endpointZone := s
 example : accepts exForest .executeCommand { exFromMaster with forwardZone := some 2, acceptCommands := false } = true := by decide
 example : accepts exForest .executeCommand { exFromMaster with endpointZone := some 2, forwardZone := some 2 } = false := by decide
 example : accepts exForest .executeCommand { exFromMaster with forwardZone := some 0 } = false := by decide
-example : specStep exForest .executeCommand { exFromMaster with endpointZone := some 2, forwardZone := some 2 } ⟨false, false, true, false⟩ = some .appliedOnlyIfEntitled := by decide
+example : specStep exForest .executeCommand { exFromMaster with endpointZone := some 2, forwardZone := some 2 } ⟨false, false, true, false, false⟩ = some .appliedOnlyIfEntitled := by decide
 /-- the two repaired guards refuse their former witnesses; the legitimate senders are still accepted -/
 example : accepts exForest .updateCertificate exAnonymous = false := by decide
 example : accepts exForest .updateCertificate exFromMaster = true := by decide
@@ -344,10 +353,322 @@ example : accepts exForest .setNextCheck { exFromMaster with endpointZone := som
 
 /-- The specification predicate is not vacuous: it rejects an applied update from an unentitled zone,
     an applied message on an anonymous connection, and accepts the entitled one. -/
-example : specStep exForest .setForceNextCheck exPeerNoOrigin ⟨true, false, false, false⟩ = some .appliedOnlyIfEntitled := by decide
-example : specStep exForest .updateCertificate exAnonymous ⟨false, true, false, false⟩ = some .anonymousOnlyCertificate := by decide
-example : specStep exForest .setForceNextCheck exPeerNoOrigin ⟨false, false, false, false⟩ = none := by decide
-example : specStep exForest .setAcknowledgement exFromMaster ⟨true, false, true, false⟩ = none := by decide
-example : specStep exForest .requestCertificate exAnonymous ⟨false, true, false, false⟩ = none := by decide
+example : specStep exForest .setForceNextCheck exPeerNoOrigin ⟨true, false, false, false, true⟩ = some .appliedOnlyIfEntitled := by decide
+example : specStep exForest .updateCertificate exAnonymous ⟨false, true, false, false, false⟩ = some .anonymousOnlyCertificate := by decide
+example : specStep exForest .setForceNextCheck exPeerNoOrigin ⟨false, false, false, false, false⟩ = none := by decide
+example : specStep exForest .setAcknowledgement exFromMaster ⟨true, false, true, false, true⟩ = none := by decide
+example : specStep exForest .requestCertificate exAnonymous ⟨false, true, false, false, false⟩ = none := by decide
+
+/-! ## The whole table without hypothesis, and the whole trace -/
+
+/-- **accepted_is_entitledB_or_fc13a** — for EVERY forest, method and context: a message that gets past its guards
+    satisfies the executable entitlement predicate the driver evaluates, or it lies in the class F-C13a
+    (own-zone sender, update class, `originZone` absent or naming a zone that is itself entitled). -/
+theorem accepted_is_entitledB_or_fc13a (f : Forest) (m : Method) (c : Ctx) (h : accepts f m c = true) :
+    entitledB f m c = true ∨ inFC13a f m c = true := by
+  cases hcls : m.cls with
+  | stateUpdate | checkResult | execResult =>
+    all_goals
+      have hm : m.cls = .stateUpdate ∨ m.cls = .checkResult ∨ m.cls = .execResult := by simp [hcls]
+      obtain ⟨ez, he⟩ := endpoint_isSome (update_has_endpoint f m c hm h)
+      obtain ⟨ha, hz⟩ := endpoint_some he
+      by_cases hown : ez = c.localZone
+      · subst hown
+        right
+        have hfz := fromZone_own he
+        cases horg : c.originZone with
+        | none => simp [inFC13a, hcls, ha, hz, horg]
+        | some z =>
+          have := update_guard_fromZone f m c z hm (by rw [hfz, horg]) h
+          rw [hcls] at this
+          simp [inFC13a, hcls, ha, hz, horg, this]
+      · left
+        have := update_guard_fromZone f m c ez hm (fromZone_foreign he hown) h
+        exact entitledB_of_zone f m he this
+  | zoneInternal =>
+    left
+    have key : c.endpoint.isSome = true ∧ guardLocal c = true := by
+      cases m <;> simp [Method.cls] at hcls <;> simp [accepts] at h <;> exact ⟨h.1.1, h.2⟩
+    obtain ⟨ez, he⟩ := endpoint_isSome key.1
+    refine entitledB_of_zone f m he ?_
+    rw [hcls]
+    simp [entitledZoneB, guardLocal_sender he key.2]
+  | config =>
+    left
+    have key : ∃ ez, c.endpoint = some ez ∧ belowB f specDepth c.localZone ez = true ∧ c.acceptConfig = true := by
+      cases m <;> simp [Method.cls] at hcls
+      · simp [accepts] at h
+        obtain ⟨ez, he, hb⟩ := guardConfigSender_belowB f h.1.1.1
+        exact ⟨ez, he, hb, h.1.1.2⟩
+      · simp [accepts] at h
+        obtain ⟨ez, he⟩ := endpoint_isSome h.1.1
+        exact ⟨ez, he, guardParent_belowB f he h.1.2, h.2⟩
+      · simp [accepts] at h
+        obtain ⟨ez, he, hb⟩ := guardConfigSender_belowB f h.1
+        exact ⟨ez, he, hb, h.2⟩
+    obtain ⟨ez, he, hb, hc⟩ := key
+    refine entitledB_of_zone f m he ?_
+    rw [hcls]
+    simp [entitledZoneB, hb, hc]
+  | command =>
+    left
+    cases m <;> simp [Method.cls] at hcls
+    simp only [accepts, Bool.and_eq_true] at h
+    obtain ⟨ez, he, hb⟩ := guardCommandSender_belowB f h.1
+    refine entitledB_of_zone f _ he ?_
+    cases hf : c.forwardZone with
+    | none => simp only [hf, Bool.and_eq_true] at h; simp [Method.cls, entitledZoneB, hb, h.2.2]
+    | some tz => simp [Method.cls, entitledZoneB, hb, hf]
+  | certUpdate =>
+    left
+    cases m <;> simp [Method.cls] at hcls
+    simp [accepts] at h
+    obtain ⟨ez, he⟩ := endpoint_isSome h.1
+    refine entitledB_of_zone f _ he ?_
+    simp [Method.cls, entitledZoneB, guardParent_belowB f he h.2]
+  | session =>
+    left
+    have key : c.endpoint.isSome = true := by
+      cases m <;> simp [Method.cls] at hcls <;> simp [accepts] at h <;> exact h
+    obtain ⟨ez, he⟩ := endpoint_isSome key
+    refine entitledB_of_zone f m he ?_
+    rw [hcls]; rfl
+  | certRequest => left; simp [entitledB, hcls]
+
+/-- **accept_implies_entitled_or_claimed** — the same as a proposition, and the exact shape of F-C13a: an accepted
+    message comes from an entitled sender, or it is an update-class message from an authenticated endpoint of the
+    receiver's own zone whose `originZone` is absent/unknown or names a zone that IS entitled.  In particular
+    nothing else escapes: no other class, no foreign sender, no claim of a zone that is not entitled. -/
+theorem accept_implies_entitled_or_claimed (f : Forest) (m : Method) (c : Ctx) (h : accepts f m c = true) :
+    Entitled f m c ∨
+    ((m.cls = .stateUpdate ∨ m.cls = .checkResult ∨ m.cls = .execResult) ∧ c.authenticated = true ∧
+     c.endpointZone = some c.localZone ∧
+     (c.originZone = none ∨ ∃ z, c.originZone = some z ∧ EntitledZone f m.cls z c)) := by
+  rcases accepted_is_entitledB_or_fc13a f m c h with h | h
+  · exact Or.inl (entitledB_sound f m c h)
+  · right
+    simp only [inFC13a, Bool.and_eq_true, Bool.or_eq_true, beq_iff_eq] at h
+    obtain ⟨⟨⟨hm, ha⟩, hz⟩, ho⟩ := h
+    refine ⟨?_, ha, hz, ?_⟩
+    · rcases hm with (hm | hm) | hm
+      · exact Or.inl hm
+      · exact Or.inr (Or.inl hm)
+      · exact Or.inr (Or.inr hm)
+    · cases horg : c.originZone with
+      | none => exact Or.inl rfl
+      | some z =>
+        simp only [horg] at ho
+        exact Or.inr ⟨z, rfl, entitledZoneB_sound f _ z c ho⟩
+
+/-- **own_zone_claim_not_entitled_is_refused** — the boundary of F-C13a from the other side: an own-zone peer that
+    names in `originZone` a zone which is NOT entitled to the message is refused, in every forest. -/
+theorem own_zone_claim_not_entitled_is_refused (f : Forest) (m : Method) (c : Ctx) (z : Zone)
+    (hm : m.cls = .stateUpdate ∨ m.cls = .checkResult ∨ m.cls = .execResult)
+    (hown : c.endpoint = some c.localZone) (horg : c.originZone = some z)
+    (hne : ¬ EntitledZone f m.cls z c) : accepts f m c = false := by
+  cases hacc : accepts f m c with
+  | false => rfl
+  | true =>
+    exfalso
+    apply hne
+    have hfz : c.fromZone = some z := by rw [fromZone_own hown, horg]
+    exact entitledZoneB_sound f _ z c (update_guard_fromZone f m c z hm hfz hacc)
+
+/-- The specification accepts an observation whose changes are covered by the entitlement and whose
+    connection-bookkeeping stays on the sender's Endpoint object. -/
+theorem specStep_none_of (f : Forest) (m : Method) (c : Ctx) (o : Obs)
+    (hent : o.applied = true → entitledB f m c = true)
+    (hsess : m.cls = .session → o.foreign = false ∧ o.files = false ∧ o.relayed = false ∧ o.executed = false) :
+    specStep f m c o = none := by
+  unfold specStep
+  cases happ : o.applied with
+  | false =>
+    by_cases hs : m.cls = .session
+    · obtain ⟨h1, h2, h3, h4⟩ := hsess hs
+      simp [h1, h2, h3, h4]
+    · simp [hs]
+  | true =>
+    have he := hent happ
+    have hauth : m.cls = .certRequest ∨ (c.authenticated = true ∧ c.endpointZone.isSome = true) := by
+      unfold entitledB at he
+      simp only [Bool.or_eq_true, beq_iff_eq, Bool.and_eq_true] at he
+      rcases he with he | ⟨ha, he⟩
+      · exact Or.inl he
+      · right
+        cases hz : c.endpointZone with
+        | none => simp [hz] at he
+        | some s => exact ⟨ha, rfl⟩
+    by_cases hs : m.cls = .session
+    · obtain ⟨h1, h2, h3, h4⟩ := hsess hs
+      rcases hauth with hc | ⟨ha, hz⟩
+      · simp [hc] at hs
+      · simp [he, ha, hz, h1, h2, h3, h4]
+    · rcases hauth with hc | ⟨ha, hz⟩
+      · simp [he, hc]
+      · simp [he, ha, hz, hs]
+
+theorem touchesOnlySenderEndpoint_iff (m : Method) : touchesOnlySenderEndpoint m = true ↔ m.cls = .session := by
+  cases m <;> simp [touchesOnlySenderEndpoint, Method.cls]
+
+/-- **model_step_satisfies_spec** — for every forest, method, context and every effect: the model's observation
+    of the message satisfies the specification, unless the message lies in the class F-C13a. -/
+theorem model_step_satisfies_spec (f : Forest) (m : Method) (c : Ctx) (eff : Obs)
+    (hk : inFC13a f m c = false) : specStep f m c (observe f m c eff) = none := by
+  apply specStep_none_of
+  · intro happ
+    unfold observe at happ
+    by_cases ha : applies f m c = true
+    · have hacc : accepts f m c = true := by
+        simp only [applies, Bool.and_eq_true] at ha; exact ha.1
+      rcases accepted_is_entitledB_or_fc13a f m c hacc with h | h
+      · exact h
+      · rw [hk] at h; cases h
+    · simp [ha, Obs.nothing, Obs.applied] at happ
+  · intro hs
+    unfold observe
+    by_cases ha : applies f m c = true
+    · simp [ha, (touchesOnlySenderEndpoint_iff m).mpr hs]
+    · simp [ha, Obs.nothing]
+
+/-- The trace of the model for a sequence of messages with arbitrary effects. -/
+def modelTrace (f : Forest) (msgs : List (Method × Ctx × Obs)) : List (Method × Ctx × Obs) :=
+  msgs.map (fun s => (s.1, s.2.1, observe f s.1 s.2.1 s.2.2))
+
+/-- **model_trace_satisfies_spec_partial** — THE WHOLE-TRACE THEOREM.  For every zone forest and every sequence
+    of messages (any methods, any contexts, any effects, any length): the specification predicate that the driver
+    evaluates on the implementation's observations finds no violation in the model's observations — provided no
+    message of the sequence lies in the class F-C13a.  (The full statement, without the proviso, is false of the
+    unchanged code: `model_trace_counterexample`.) -/
+theorem model_trace_satisfies_spec_partial (f : Forest) (msgs : List (Method × Ctx × Obs))
+    (hk : ∀ s ∈ msgs, inFC13a f s.1 s.2.1 = false) (i : Nat) :
+    specTrace f (modelTrace f msgs) i = none := by
+  induction msgs generalizing i with
+  | nil => rfl
+  | cons s rest ih =>
+    obtain ⟨m, c, eff⟩ := s
+    have h1 := model_step_satisfies_spec f m c eff (hk (m, c, eff) (List.mem_cons_self ..))
+    simp only [modelTrace, List.map_cons, specTrace, h1]
+    exact ih (fun s hs => hk s (List.mem_cons_of_mem _ hs)) (i + 1)
+
+/-- **model_trace_counterexample** (F-C13a on the trace level): an entitled message followed by the own-zone
+    peer's update for a master-zone host; the specification fails at index 1. -/
+theorem model_trace_counterexample :
+    specTrace exForest (modelTrace exForest
+      [(.setAcknowledgement, exFromMaster, { objects := true, files := false, relayed := true, executed := false }),
+       (.setForceNextCheck, exPeerNoOrigin, { objects := true, files := false, relayed := false, executed := false })]) 0
+      = some (1, .appliedOnlyIfEntitled) := by
+  decide
+
+/-- A refused message shows nothing — for every method and effect (here `observe` is the model's whole step, the
+    connection-bookkeeping confinement included). -/
+theorem refused_observes_nothing (f : Forest) (m : Method) (c : Ctx) (eff : Obs)
+    (h : accepts f m c = false) : (observe f m c eff).applied = false := by
+  simp [observe, applies, h, Obs.nothing, Obs.applied]
+
+/-- `config::UpdateObject` needs `accept_config` in BOTH of its branches — creating an object that does not exist
+    yet and modifying one that does — and `config::DeleteObject` deletes nothing the API did not create. -/
+theorem update_object_needs_accept_config (f : Forest) (c : Ctx)
+    (h : applies f .configUpdateObject c = true) :
+    c.acceptConfig = true ∧ (if c.objExists then c.versionNewer = true else c.configEmpty = false) := by
+  simp only [applies, accepts, effective, Bool.and_eq_true] at h
+  refine ⟨h.1.2, ?_⟩
+  cases hx : c.objExists <;> simp [hx] at h ⊢ <;> exact h.2
+
+theorem delete_object_only_api_package (f : Forest) (c : Ctx)
+    (h : applies f .configDeleteObject c = true) :
+    c.acceptConfig = true ∧ c.objExists = true ∧ c.apiPackage = true := by
+  simp [applies, accepts, effective] at h
+  exact ⟨h.1.1.2, h.1.2, h.2⟩
+
+/-- Not only refusals: a state/event update from a zone other than the receiver's that may access the object IS
+    accepted (so the table is not trivially `false`; `event::SetRemovalInfo` additionally wants the sender above). -/
+theorem entitled_foreign_update_is_accepted (f : Forest) (m : Method) (c : Ctx) (s : Zone)
+    (hm : m.cls = .stateUpdate) (hnr : m ≠ .setRemovalInfo)
+    (ha : c.authenticated = true) (hz : c.endpointZone = some s) (hne : s ≠ c.localZone)
+    (hobj : c.objExists = true) (hacc : canAccessObject f c.localZone s c.objZone = true) :
+    accepts f m c = true := by
+  have he : c.endpoint = some s := by simp [Ctx.endpoint, ha, hz]
+  have hfz := fromZone_foreign he hne
+  cases m <;> simp [Method.cls] at hm <;> first
+    | exact absurd rfl hnr
+    | simp [accepts, he, hobj, guardAccess, hfz, hacc]
+
+/-! ## Non-vacuity of the trace-level theorems and of the new clauses -/
+
+/-- The satellite's own-zone peer names the AGENT zone (2) for a master-zone host: outside F-C13a, and refused. -/
+def exPeerClaimsAgent : Ctx := { exPeerNoOrigin with originZone := some 2 }
+
+/-- both disjuncts of `accepted_is_entitledB_or_fc13a` occur, and the narrowed class excludes the unentitled claim -/
+example : accepts exForest .setAcknowledgement exFromMaster = true ∧ entitledB exForest .setAcknowledgement exFromMaster = true ∧
+    inFC13a exForest .setAcknowledgement exFromMaster = false := by decide
+example : accepts exForest .setForceNextCheck exPeerNoOrigin = true ∧ entitledB exForest .setForceNextCheck exPeerNoOrigin = false ∧
+    inFC13a exForest .setForceNextCheck exPeerNoOrigin = true := by decide
+example : inFC13a exForest .setAcknowledgement { exPeerNoOrigin with originZone := some 0 } = true := by decide
+example : inFC13a exForest .setForceNextCheck exPeerClaimsAgent = false ∧ accepts exForest .setForceNextCheck exPeerClaimsAgent = false := by decide
+/-- hypotheses of `own_zone_claim_not_entitled_is_refused` on that context -/
+example : exPeerClaimsAgent.endpoint = some exPeerClaimsAgent.localZone ∧ exPeerClaimsAgent.originZone = some 2 := by decide
+example : ¬ EntitledZone exForest Method.setForceNextCheck.cls 2 exPeerClaimsAgent := by
+  simp only [Method.cls, EntitledZone, ObjWithin, exPeerClaimsAgent, exPeerNoOrigin]
+  rintro (h | h)
+  · simp [exForest] at h
+  · cases h with
+    | step hp _ => simp [exForest] at hp
+/-- a spec failure for the unentitled claim would NOT be excused: the predicate rejects it like any other -/
+example : specStep exForest .setForceNextCheck exPeerClaimsAgent { objects := true, files := false, relayed := false, executed := false } = some .appliedOnlyIfEntitled := by decide
+
+/-- `model_step_satisfies_spec` / `model_trace_satisfies_spec_partial`: hypothesis satisfiable on a trace with accepted,
+    refused and connection-bookkeeping messages (and the model really applies the first and the third) -/
+def exMsgs : List (Method × Ctx × Obs) :=
+  [(.setAcknowledgement, exFromMaster, { objects := true, files := false, relayed := true, executed := false }),
+   (.setSuppressedNotifications, exFromMaster, { objects := true, files := false, relayed := false, executed := false }),
+   (.hello, exFromMaster, { objects := true, files := true, relayed := true, executed := true }),
+   (.configUpdateObject, { exFromMaster with acceptConfig := false, objExists := true }, { objects := true, files := false, relayed := true, executed := false }),
+   (.updateCertificate, exAnonymous, { objects := false, files := true, relayed := false, executed := false })]
+example : ∀ s ∈ exMsgs, inFC13a exForest s.1 s.2.1 = false := by decide
+example : (modelTrace exForest exMsgs).map (fun s => s.2.2.applied) = [true, false, true, false, false] := by decide
+example : specTrace exForest (modelTrace exForest exMsgs) 0 = none := by decide
+/-- the same trace as an implementation that ignores accept_config / lets Hello touch other objects would show it -/
+example : specTrace exForest exMsgs 0 = some (1, .appliedOnlyIfEntitled) := by decide
+example : specTrace exForest (exMsgs.drop 2) 0 = some (0, .sessionOnlyOwnEndpoint) := by decide
+example : specTrace exForest (exMsgs.drop 3) 0 = some (0, .appliedOnlyIfEntitled) := by decide
+example : specTrace exForest (exMsgs.drop 4) 0 = some (0, .anonymousOnlyCertificate) := by decide
+
+/-- `session_only_own_endpoint`: rejects a Hello that changes another object; accepts one that changes the sender's
+    Endpoint object only -/
+example : specStep exForest .hello exFromMaster { objects := true, files := false, relayed := false, executed := false, foreign := true } = some .sessionOnlyOwnEndpoint := by decide
+example : specStep exForest .hello exFromMaster { objects := true, files := false, relayed := false, executed := false, foreign := false } = none := by decide
+
+/-- config::UpdateObject / DeleteObject: every branch (`update_object_needs_accept_config`, `delete_object_only_api_package`) -/
+example : applies exForest .configUpdateObject { exFromMaster with objExists := false } = true := by decide
+example : applies exForest .configUpdateObject { exFromMaster with objExists := false, configEmpty := true } = false := by decide
+example : applies exForest .configUpdateObject { exFromMaster with objExists := true } = true := by decide
+example : applies exForest .configUpdateObject { exFromMaster with objExists := true, versionNewer := false } = false := by decide
+example : applies exForest .configUpdateObject { exFromMaster with objExists := true, acceptConfig := false } = false := by decide
+example : applies exForest .configDeleteObject exFromMaster = true := by decide
+example : applies exForest .configDeleteObject { exFromMaster with apiPackage := false } = false := by decide
+/-- the spec rejects a modification of an existing object that went through without accept_config -/
+example : specStep exForest .configUpdateObject { exFromMaster with objExists := true, acceptConfig := false }
+    { objects := true, files := false, relayed := true, executed := false } = some .appliedOnlyIfEntitled := by decide
+
+/-- check results: the command endpoint's zone mate is NOT the command endpoint — the agent (zone 2) sends a result for a
+    master-zone host whose command endpoint is the agent's HA partner -/
+example : specStep exForest .checkResult { exFromMaster with endpointZone := some 2, localZone := 0, objZone := some 0, senderIsCommandEndpoint := false }
+    { objects := true, files := false, relayed := true, executed := false } = some .appliedOnlyIfEntitled := by decide
+example : accepts exForest .checkResult { exFromMaster with endpointZone := some 2, localZone := 0, objZone := some 0, senderIsCommandEndpoint := false } = false := by decide
+example : accepts exForest .checkResult { exFromMaster with endpointZone := some 2, localZone := 0, objZone := some 0, senderIsCommandEndpoint := true } = true := by decide
+
+/-- forwarding error notices: towards the agent zone (2) from the master (local 0): the satellite zone is the child on
+    the way; the notice goes to the own zone and the parent zone — the master has no parent, so if the sender is the
+    master's own peer nobody else hears of it -/
+example : forwardErrorNotice exForest { exFromMaster with localZone := 0, childLacksCapability := true } 2 = true := by decide
+example : forwardErrorNotice exForest { exFromMaster with localZone := 0, hostInaccessibleToChild := true } 2 = true := by decide
+example : forwardErrorNotice exForest { exFromMaster with localZone := 0, hostInaccessibleToChild := true } 1 = false := by decide
+example : applies exForest .executeCommand { exFromMaster with localZone := 0, forwardZone := some 2, childLacksCapability := true } = false := by decide
+example : applies exForest .executeCommand { exFromMaster with forwardZone := some 2, childLacksCapability := true } = true := by decide
+
+/-- `entitled_foreign_update_is_accepted`: its hypotheses hold for the master's acknowledgement -/
+example : exFromMaster.authenticated = true ∧ exFromMaster.endpointZone = some 0 ∧ (0 : Zone) ≠ exFromMaster.localZone ∧
+    exFromMaster.objExists = true ∧ canAccessObject exForest exFromMaster.localZone 0 exFromMaster.objZone = true := by decide
+
 
 end Icinga.C13
